@@ -72,6 +72,8 @@ pub const POSITIONS: &[&str] = &[
     "fkcreatename", "fkcreatetbl", "fkdropname", "altaddcol", "altrenfrom", "altrento", "altdropcol",
     "altmodcol", "rentblfrom", "rentblto", "droptbl", "trunctbl", "typecreatename", "typedropname",
     "typealtername", "updfrom", "uniqname", "cenumtype",
+    // foreign keys through ALTER TABLE (TableAlterOption::AddForeignKey / DropForeignKey)
+    "altdropfk", "altaddfkname", "altaddfkcol", "altaddfkreftbl", "altaddfkrefcol",
 ];
 
 /// iden <backend> <position> <name-hex>
@@ -295,6 +297,16 @@ pub fn render(b: B, pos: &str, n: Alias) -> String {
             b,
             Table::alter().table(t).add_column(ColumnDef::new(n).integer()),
         ),
+        "altdropfk" => sc(b, Table::alter().table(t).drop_foreign_key(n)),
+        "altaddfkname" | "altaddfkcol" | "altaddfkreftbl" | "altaddfkrefcol" => {
+            let mut fk = TableForeignKey::new();
+            fk.name(if pos == "altaddfkname" { n.to_string() } else { "f".to_string() });
+            fk.from_tbl(t.clone());
+            fk.from_col(if pos == "altaddfkcol" { n.clone() } else { c.clone() });
+            fk.to_tbl(if pos == "altaddfkreftbl" { n.clone() } else { a("u") });
+            fk.to_col(if pos == "altaddfkrefcol" { n.clone() } else { a("d") });
+            sc(b, Table::alter().table(t).add_foreign_key(&fk))
+        }
         "altrenfrom" => sc(b, Table::alter().table(t).rename_column(n, c)),
         "altrento" => sc(b, Table::alter().table(t).rename_column(c, n)),
         "altdropcol" => sc(b, Table::alter().table(t).drop_column(n)),
